@@ -7,7 +7,7 @@ RUN: harness/xslt.cpp; the result tree holds one <n> per visited node.
 TV : Trace_C17.tla - each string equals FormatList(NumberList(...))."""
 import os, random, json, subprocess
 from xml.sax.saxutils import quoteattr
-import vlib, xdm, xpgen
+import vlib, xdm, xpgen, tlaparse, json
 from xpgen import *
 from vlib import ROOT
 from props import c02
@@ -74,6 +74,66 @@ def outs_of(tree):
     return res
 
 
+MC_COUNTERS = os.path.join(ROOT, "spec/mc/MC_Counters.tla")
+
+
+def counters_model(res, wd, quick, rng):
+    """MC: CountersImpl (the transcribed level="any" counting with its per-instruction cache) refines the definition for every
+    (match, from) pair over N nodes and every numbering history; GEN: sampled (document shape, history) pairs of that state graph,
+    rendered as real documents (elements in a random tree, @m = matched by count, @f = matched by from) and visiting orders."""
+    n, mh = (5, 4) if quick else (6, 5)
+    cfg = os.path.join(wd, "counters_mc.cfg")
+    open(cfg, "w").write("SPECIFICATION Spec\nCONSTANTS N = %d\n MaxHist = %d\nINVARIANT Refines\nINVARIANT CacheShape\nVIEW View\nCHECK_DEADLOCK FALSE\n" % (n, mh))
+    r = vlib.tlc_mc(MC_COUNTERS, cfg, name="c17counters", workers=8, timeout=3000, extra=["-noGenerateSpecTE"])
+    res.add_mc(r, "MC_Counters (CountersImpl = definition of level any for every match/from subset of %d nodes and every history <= %d; cache shape)" % (n, mh))
+    gn, gh = 4, 4
+    gcfg = os.path.join(wd, "counters_gen.cfg")
+    open(gcfg, "w").write("SPECIFICATION Spec\nCONSTANTS N = %d\n MaxHist = %d\nVIEW View\nCHECK_DEADLOCK FALSE\n" % (gn, gh))
+    dump = os.path.join(wd, "counters_gen")
+    g = vlib.tlc(MC_COUNTERS, gcfg, workers=1, name="c17countersgen", timeout=3000, extra=["-noGenerateSpecTE", "-dump", dump])
+    if not g["ok"]:
+        raise vlib.Infra("MC_Counters behaviour export failed: " + g["out"][-2000:])
+    states = [st for st in tlaparse.read_dump(dump + ".dump", only={"d", "hist", "counters"}) if len(st["hist"]) >= 2]
+    states.sort(key=lambda st: json.dumps(st, sort_keys=True, default=list))
+    # prefer histories whose cache has several counters or long lists (joins, hits)
+    # stratified sample: (from given?, root matched by count?, root matched by from?, cache with several counters / long lists?) - the
+    # state graph has 32 from-subsets for every from-less configuration, so a uniform sample would hardly ever leave from out
+    strata = {}
+    for st in states:
+        rich = len(st["counters"]) >= 2 or any(len(c) >= 2 for c in st["counters"])
+        strata.setdefault((bool(st["d"]["hasFrom"]), 0 in st["d"]["match"], 0 in st["d"]["from"], rich), []).append(st)
+    per = (12 if quick else 150)
+    pick = []
+    for key in sorted(strata):
+        pick += rng.sample(strata[key], min(len(strata[key]), per * (2 if key[3] else 1)))
+    out = []
+    P = lambda *steps, **kw: path(list(steps), **kw)
+    for st in pick:
+        d = st["d"]
+        match, frm = set(d["match"]), set(d["from"])
+        # elements 1..gn in preorder, random nesting
+        elems = []
+        stack = []
+        for i in range(1, gn + 1):
+            attrs = ([xdm.A("m", "1")] if i in match else []) + ([xdm.A("f", "1")] if i in frm else [])
+            e = xdm.E("e", a=attrs)
+            if i == 1:
+                top = e
+            else:
+                depth = rng.randint(1, len(stack))
+                stack = stack[:depth]
+                stack[-1]["c"].append(e)
+            stack.append(e)
+        tree = xdm.R(top)
+        pm = P(step("child", T_ANY, P(step("attribute", t_name("m")))))
+        pf = P(step("child", T_ANY, P(step("attribute", t_name("f")))))
+        ins = {"level": "any", "hasCount": True, "count": bin_("|", P(abs_=True), pm) if 0 in match else pm,
+               "hasFrom": bool(d["hasFrom"]), "from": (bin_("|", P(abs_=True), pf) if 0 in frm else pf)}
+        out.append((tree, ins, list(st["hist"])))
+    res.notes["counters_model_histories"] = len(out)
+    return out
+
+
 def run(res, tier, seed):
     rng = random.Random(seed)
     quick = tier == "quick"
@@ -99,6 +159,18 @@ def run(res, tier, seed):
             open(os.path.join(cdir, "in.xml"), "w").write(c02.doc_xml(docs[d]))
             cases.append({"id": k, "dir": cdir, "trace": "none", "select": False})
             metas.append(("count", d, ins, fmt, order)); k += 1
+    # the model-derived family: histories of the CountersImpl state graph on documents that realise its (match, from) sets
+    for tree, ins, hist in counters_model(res, wd, quick, rng):
+        docs.append(tree)
+        flat = xdm.flatten(tree, c02.ID_ATTRS)
+        flats.append(flat)
+        elem_ids = [i + 1 for i in range(flat["n"]) if flat["kind"][i] == "elem"]          # model node j (1..N) = j-th element; 0 = the root (id 1)
+        order = [elem_ids[j - 1] for j in hist]
+        cdir = os.path.join(wd, "case%d" % k); os.makedirs(cdir)
+        open(os.path.join(cdir, "main.xsl"), "w").write(render(ins, "1", order))
+        open(os.path.join(cdir, "in.xml"), "w").write(c02.doc_xml(tree))
+        cases.append({"id": k, "dir": cdir, "trace": "none", "select": False})
+        metas.append(("count", len(docs) - 1, ins, "1", order)); k += 1
     for _ in range(30 if quick else 400):
         fmt = rng.choice(FORMATS + ["a", "i", "I", "A", "01"])
         vals = [rng.choice([1, 2, 3, 4, 9, 14, 19, 26, 27, 40, 49, 52, 90, 99, 400, 499, 702, 703, 999, 1999, 3999, rng.randint(1, 4000)]) for _ in range(12)]
